@@ -620,3 +620,42 @@ def _():
         if getattr(pc_, attr, None) is not ps_.LIT(name):
             fails.append(dict(table=attr, got=str(getattr(pc_, attr, None)), want=name))
     return dict(cases=cases, failures=fails)
+
+
+@bounded("flate-data-with-a-damaged-tail-is-recovered", props=["C03", "C13"],
+         bound="quick: 300 (thorough 20000) random payloads of 0..400 bytes, deflated at levels 0/1/9: (a) a wrong Adler-32 checksum - through PDFStream.get_data "
+               "the whole payload comes back; (b) the last k bytes cut off (k = 1..8) - decompress_corrupted returns a prefix of the payload, through get_data "
+               "a prefix or nothing, never an exception; (c) arbitrary bytes behind a valid deflate header - no exception")
+def _(tier, seed):
+    import random, zlib
+    rng = random.Random(seed + 303)
+    pt_ = real_module("pdfminer.pdftypes")
+    LIT_ = real_module("pdfminer.psparser").LIT
+    n = 300 if tier == "quick" else 20000
+    failures, evals = [], 0
+
+    def through_stream(data):
+        return pt_.PDFStream({"Filter": LIT_("FlateDecode"), "Length": len(data)}, data).get_data()
+    for _ in range(n):
+        payload = bytes(rng.randrange(256) if rng.random() < .5 else 65 for _k in range(rng.randint(0, 400)))
+        z = zlib.compress(payload, rng.choice([0, 1, 9]))
+        bad_crc = z[:-4] + bytes((z[-4] ^ 0x55,)) + z[-3:]
+        evals += 1
+        try:
+            got = through_stream(bad_crc)
+            if got != payload:
+                failures.append(dict(case="wrong checksum", payload=payload.hex()[:80], got=got.hex()[:80], got_len=len(got), want_len=len(payload)))
+            k = rng.randint(1, 8)
+            cut = z[:-k]
+            g1 = pt_.decompress_corrupted(cut)
+            g2 = through_stream(cut)
+            if payload[:len(g1)] != g1 or payload[:len(g2)] != g2:
+                failures.append(dict(case="tail cut by %d" % k, payload=payload.hex()[:80], direct=g1.hex()[:80], via_stream=g2.hex()[:80]))
+            junk = z[:2] + bytes(rng.randrange(256) for _k in range(rng.randint(0, 30)))
+            pt_.decompress_corrupted(junk)
+            through_stream(junk)
+        except Exception as e:  # noqa: BLE001
+            failures.append(dict(case="exception", error="%s: %s" % (type(e).__name__, e), payload=payload.hex()[:80]))
+        if len(failures) >= 3:
+            break
+    return dict(evaluations=evals, distinct=evals, failures=failures)
